@@ -336,6 +336,18 @@ class Model:
         names_now, subs_now, ident_now = self.dump(ctx)
         sel_now = {n for n, a in names_now.items()
                    if b'\\noselect' not in a and isinstance(n, str)}
+        # an object id identifies one mailbox
+        by_id: dict = {}
+        for n_, idv in ident_now.items():
+            if isinstance(idv, tuple) and idv[0] not in (None,
+                                                         'status-failed'):
+                by_id.setdefault(idv[0], []).append(n_)
+        for oid, ns_ in by_id.items():
+            if len(ns_) > 1:
+                out.append(Violation(
+                    'mailboxid-shared', 'two-names-one-id',
+                    f'{site}: STATUS reports MAILBOXID {oid!r} for the '
+                    f'different mailboxes {sorted(ns_)}'))
         if cond in ('NO', 'BAD'):
             # refused: nothing changes
             exp_sel = before[0] | {'INBOX'}
@@ -598,9 +610,9 @@ def run(*, tier, seed, jobs, progress, opts):
         plans = [(opts.get('kind', 'dict'), int(opts['depth']),
                   int(opts.get('max_states', 100000)))]
     elif tier == 'quick':
-        plans = [('dict', 3, 250), ('++', 2, 14), ('fs', 2, 14)]
+        plans = [('dict', 3, 250), ('++', 3, 14), ('fs', 2, 14)]
     else:
-        plans = [('dict', 4, 100000), ('++', 2, 100000), ('fs', 2, 100000)]
+        plans = [('dict', 4, 100000), ('++', 3, 200), ('fs', 3, 200)]
     violations = []
     cov = {'plans': [], 'states': 0, 'transitions': 0}
     with scratch_parent():
